@@ -89,6 +89,8 @@ struct Ctx {
     by_class: BTreeMap<String, usize>,
     max_peak: usize,
     max_ms: u64,
+    subset_cases: BTreeMap<String, usize>,
+    max_subset_cases: usize,
 }
 
 pub const FILE_ENTRIES: &[&str] = &["sample_fill", "iter", "bytes_le", "bytes_be", "channels", "verify", "frame_iter", "blocklist", "read_blocks"];
@@ -201,6 +203,14 @@ impl Ctx {
     }
     fn run_frames(&mut self, class: &str, desc: &str, bytes: &[u8], si: Option<&flac_codec::metadata::Streaminfo>) {
         self.run(class, desc, FRAME_ENTRIES, bytes, si);
+        // the same bytes as a dec_subset observation for the model's sync-scanning reader
+        // (frames returned by read() until the first Err); bounded in number and size
+        let n = self.subset_cases.entry(class.to_string()).or_insert(0);
+        if *n < self.max_subset_cases && bytes.len() <= 1500 {
+            *n += 1;
+            let line = dec_subset_case(bytes, &[("src", esc(class))]);
+            if line.len() < 200_000 { self.out.case(line); }
+        }
     }
 }
 
@@ -269,7 +279,7 @@ fn worker(watch: Arc<Watch>) {
     hook_panics();
     let seed = env_seed();
     let thorough = env_tier_thorough();
-    let mut cx = Ctx { out: Out::new(), watch, t0: std::time::Instant::now(), runs: 0, by_entry: Default::default(), outcomes: Default::default(), by_class: Default::default(), max_peak: 0, max_ms: 0 };
+    let mut cx = Ctx { out: Out::new(), watch, t0: std::time::Instant::now(), runs: 0, by_entry: Default::default(), outcomes: Default::default(), by_class: Default::default(), max_peak: 0, max_ms: 0, subset_cases: Default::default(), max_subset_cases: scale(if thorough { 600 } else { 120 }) };
     cx.out.per_key_limit = 2;
     let mut rng = Rng::new(seed, 0xC04);
     let kinds = all_kinds();
@@ -437,7 +447,7 @@ fn worker(watch: Arc<Watch>) {
         obj(&[
             ("t", esc("stat")), ("profile", esc(profile())), ("runs", cx.runs.to_string()), ("by_entry", m(&cx.by_entry)), ("by_class", m(&cx.by_class)), ("outcomes", m(&cx.outcomes)),
             ("max_peak_live_bytes", cx.max_peak.to_string()), ("max_call_ms", cx.max_ms.to_string()), ("mem_bound", esc(&format!("{} + {} * len", MEM_CONST, MEM_PER_BYTE))),
-            ("viols", cx.out.viols.to_string()), ("viol_keys", cx.out.counts()),
+            ("cases_emitted", cx.out.cases.to_string()), ("viols", cx.out.viols.to_string()), ("viol_keys", cx.out.counts()),
         ])
     );
     cx.watch.done.store(true, Ordering::SeqCst);
